@@ -216,6 +216,16 @@ func (d *duplexHTTPCall) SetError(err error) {
 	//
 	// It's safe to ignore the returned error here. Under the hood, Close calls
 	// CloseWithError, which is documented to always return nil.
+	if errors.Is(err, io.EOF) {
+		// The response ended cleanly, so the server is done with this call, but
+		// net/http may still be reading the request body. Closing the read side
+		// underneath it makes the transport abort the whole exchange, including
+		// any part of the response it hasn't delivered yet (such as the final
+		// empty frame), and a successful call then fails with "io: read/write on
+		// closed pipe". End the request body cleanly instead: writes still fail.
+		_ = d.requestBodyWriter.Close()
+		return
+	}
 	_ = d.requestBodyReader.Close()
 }
 
